@@ -106,7 +106,7 @@ def run_companion(cfg, tier):
     tp = W.module(plscf)
     m, n, l = cfg["Nch"], cfg["n"], cfg["l"]
     tally = Tally(W, ["rmfd2ac"])
-    ex = Explorer(timeout_ms=60000)
+    ex = Explorer(timeout_ms=60000, push_feas=True)
     st = {}
 
     def body():
@@ -194,7 +194,7 @@ def run_poly(cfg, tier):
     W = World(overrides={"np": NPProxy(linalg=LA(eig), where=fork_where)})
     tp = W.module(plscf)
     tally = Tally(W, ["ac2mp_poly"])
-    ex = Explorer(timeout_ms=30000)
+    ex = Explorer(timeout_ms=30000, push_feas=True)
     st = {}
     nxseg = 16
 
@@ -398,7 +398,7 @@ def run_recover(cfg, tier):
     W = World(overrides={"np": NPProxy(linalg=LA(), exp=exp_stub)})
     tp = W.module(plscf)
     tally = Tally(W, ["pLSCF"])
-    ex = Explorer(timeout_ms=120000)
+    ex = Explorer(timeout_ms=120000, push_feas=True)
     st = {}
 
     def body():
